@@ -86,6 +86,20 @@ Unload(m) ==
   /\ op' = [name |-> "unload", m |-> m, res |-> "ok"]
   /\ UNCHANGED <<mainv, leak>>
 
+\* an editor-style reload of a module on disk: unload(m) directly followed by load(m), one step of the user.  Whatever
+\* of m's imports is missing from the table is loaded with it; everything else - the dependants of m included - stays
+RECURSIVE ReachIn(_, _)
+ReachIn(m, L) == IF m \in L THEN {} ELSE {m} \cup UNION {ReachIn(d, L) : d \in ImportsOf(m, mainv)}
+Reload(m) ==
+  /\ m \in loaded /\ m \in Disk
+  /\ LET R == ReachIn(m, loaded \ {m}) IN
+     /\ loaded' = (loaded \ {m}) \cup R
+     /\ entry' = (entry \ {m}) \cup R
+     /\ dbm' = (dbm \ {m}) \cup R
+     /\ completed' = (completed \ {m}) \cup R
+  /\ op' = [name |-> "reload", m |-> m, res |-> "ok"]
+  /\ UNCHANGED <<mainv, mainseen, leak>>
+
 \* transpile(modules.load(m).entrypoint)
 Seen(m) == IF m = "main" THEN (IF "main" \in loaded THEN mainseen ELSE mainv) ELSE "disk"
 Transpile(m) ==
@@ -105,7 +119,7 @@ Resubmit(v) ==
   /\ UNCHANGED <<loaded, entry, dbm, completed, mainseen, leak>>
 
 Next ==
-  \/ \E m \in Mods : Load(m) \/ Unload(m) \/ Transpile(m)
+  \/ \E m \in Mods : Load(m) \/ Unload(m) \/ Transpile(m) \/ Reload(m)
   \/ \E v \in MainVariants : v # mainv /\ "main" \notin loaded /\ Resubmit(v)
 
 Spec == Init /\ [][Next]_vars
@@ -118,7 +132,7 @@ Bounded == TLCGet("level") <= MaxOps /\ leak <= 2
 HistoryFree == [][op'.name = "transpile" /\ op'.res = "ok" => op'.text = TextOf(op'.m, IF op'.m = "main" THEN mainseen' ELSE "disk")]_vars
 
 \* loading / unloading / transpiling m leaves the tables of every module outside m's closure untouched
-Frame == [][op'.name \in {"load", "unload", "transpile"} =>
+Frame == [][op'.name \in {"load", "unload", "transpile", "reload"} =>
       \A n \in Mods : n \notin Closure(op'.m, mainv) =>
           (n \in loaded) = (n \in loaded') /\ (n \in entry) = (n \in entry') /\ (n \in dbm) = (n \in dbm') /\ (n \in completed) = (n \in completed')]_vars
 
